@@ -318,6 +318,7 @@ func init() {
 	families["policy"] = func(rng *Rng, n int, out *Out, replay string) {
 		// sequences of accepted messages: the seeded-change demonstration literally, then random plans
 		runSequence(NewRng(rng.U64()), out, directedSeqPlan(), false)
+		runSequence(NewRng(rng.U64()), out, directedKeptRatePlan(), false)
 		for sc := -nDirected; sc < n; sc++ {
 			r := NewRng(rng.U64())
 			if sc >= 0 && sc%40 == 7 {
